@@ -84,6 +84,8 @@ type PartialEvent struct {
 	Label       string // adversary label for injected items
 	Err         string // error returned by the receiver ("" = accepted)
 	Done        bool
+	// Started is set when delivery to the receiver began (Seq is then the delivery start).
+	Started bool
 }
 
 // PutEvent is one Put on a node's base store.
@@ -131,6 +133,7 @@ type Net struct {
 	closed     bool
 	vmu        sync.Mutex
 	vcache     map[string]error
+	pcache     map[string]int
 	tmu        sync.Mutex
 	truth      [][]byte
 	liars      map[string]*LieSpec
@@ -481,6 +484,9 @@ func (n *Net) deliver(ev *PartialEvent, pkt *proto.PartialBeaconPacket, to *Node
 		return errors.New("peer down")
 	}
 	h := to.H
+	n.mu.Lock()
+	ev.Started = true
+	n.mu.Unlock()
 	_, err := h.ProcessPartialBeacon(peerCtx(context.Background(), ev.FromAddr), pkt)
 	n.mu.Lock()
 	if err != nil {
